@@ -9,6 +9,7 @@ import (
 	"strconv"
 	"strings"
 	"time"
+	"unicode/utf8"
 
 	gojson "github.com/goccy/go-json"
 	"github.com/indexsupply/shovel/bint"
@@ -26,13 +27,17 @@ import (
 // client uses); (2) structured uint64 sub-domain × spellings; (3) byte
 // strings of every length 0..4096 (quick: 0..600 and a stride above);
 // (4) every ordered triple of decodes into one destination; (5) bint with
-// every pad width 1..32.
+// every pad width 1..32; (7) the FULL byte range 0..255 as "digits" of 0x-prefixed string tokens: every
+// digit string of length 1..2, every position x byte value of digit counts 3..18 (thorough ..34), every
+// non-ASCII code point UTF-8 encoded inside a well-formed document — raw calls, encoding/json, goccy/go-json,
+// each type on its own — and the string helpers on the same position x byte value family.
 
 const c17Alphabet = "\"0xX19aFgnu "
 
 type c17Case struct {
 	Kind  string   `json:"kind"`
 	Token string   `json:"token,omitempty"`
+	Hex   string   `json:"hex,omitempty"` // token bytes in hex when the token is not valid UTF-8 (JSON would not round-trip it)
 	Seq   []string `json:"seq,omitempty"`
 	N     uint64   `json:"n,omitempty"`
 	W     int      `json:"w,omitempty"`
@@ -46,17 +51,29 @@ func init() {
 		Rule: "all tokens of length 0..6 (thorough: 0..7) over the alphabet " + strconv.Quote(c17Alphabet) + " fed to Uint64/Byte/Bytes.UnmarshalJSON directly and via encoding/json and goccy/go-json; " +
 			"uint64 values with <=2 non-zero nibbles + boundaries x {lower,upper,mixed,zero-padded} spellings; byte strings of every length x 3 patterns x 2 cases, one bad digit at every position (len<=64), odd digit counts; " +
 			"all ordered triples from 16 hex values (incl. growth from len < cap) and the token null into one Bytes destination (directly and as a struct field through encoding/json and goccy/go-json); bint Encode/Decode boundary set x pad 1..32; eth.DecodeHex/EncodeHex on every byte string of length 0..2 and lengths 3..40 x every first byte x 3 fills x {0x, 0X, unprefixed, odd} spellings, DecodeUint64/EncodeUint64 on the quantity set. " +
+			"Full byte range: tokens \"0x<digits>\" whose digits are ALL 256 byte values - every digit string of length 1 and 2 (256+65536), digit counts 3..18 (thorough: 3..34) x every position x every byte value x fill digits {1,f,A} - and every non-ASCII code point of U+0080..U+FFFF (above: quick those whose last two continuation bytes are equal, thorough all) UTF-8 encoded alone, after a digit and before a digit (well-formed JSON documents); each token goes to Uint64/Byte/Bytes.UnmarshalJSON directly and as a member value through encoding/json and goccy/go-json into each type separately, the reference (isHex + strconv + encoding/hex) deciding value or rejection; eth.DecodeHex/DecodeUint64 on digit counts 1..16 (thorough: 1..40) x every position x every byte value x fill digits {1,f} x {0x, 0X, unprefixed}. " +
 			"A case is non-trivial when it is a judged spelling (0x-prefixed string token, or a structured value); every case is distinct by construction.",
 		Assumptions: []string{
 			"quantities with more than 16 hex digits are not spellings of a 64-bit value and are not judged",
 			"tokens that are not 0x-prefixed JSON strings are judged only for absence of panics",
 			"eth.Byte values above 0xff are not valid for the type and are not judged for value",
+			"string tokens with a backslash among the digits (JSON escape sequences) are judged only for absence of panics",
+			"through a JSON decoder a non-hex token is rejected when Unmarshal returns any error, whether from the decoder or from the codec",
+			"the string helpers have no error result: for a spelling with a non-hex byte eth.DecodeHex rejects by returning fewer bytes than the spelling has and eth.DecodeUint64 by panicking; only a full value for such a spelling is a violation",
 		},
 		Budget:        map[string]time.Duration{"quick": 120 * time.Second, "thorough": 900 * time.Second},
 		MinNontrivial: 1000,
 		Run:           c17Run,
 		Replay:        c17Replay,
 	})
+}
+
+// c17TokCase is the replayable form of a raw token: arbitrary bytes do not survive a JSON string.
+func c17TokCase(tok string) c17Case {
+	if utf8.ValidString(tok) {
+		return c17Case{Kind: "token", Token: tok}
+	}
+	return c17Case{Kind: "token", Hex: hex.EncodeToString([]byte(tok))}
 }
 
 func isHex(c byte) bool {
@@ -66,11 +83,13 @@ func isHex(c byte) bool {
 // c17Token checks one raw token against the three unmarshalers.
 func c17Token(c *fw.Ctx, tok string) {
 	judged := false
+	// as a member value per type, value and accept/reject judged (string tokens "0x…" only)
+	c17Strict(c, tok)
 	// direct calls
 	func() {
 		defer func() {
 			if r := recover(); r != nil {
-				c.Violation("C17", "panic", "unmarshal/panic", fmt.Sprintf("token %q: panic %v", tok, r), c17Case{Kind: "token", Token: tok})
+				c.Violation("C17", "panic", "unmarshal/panic", fmt.Sprintf("token %q: panic %v", tok, r), c17TokCase(tok))
 			}
 		}()
 		var u eth.Uint64
@@ -92,35 +111,35 @@ func c17Token(c *fw.Ctx, tok string) {
 			switch {
 			case !allhex && len(digits) <= 16:
 				if uerr == nil {
-					c.Violation("C17", "mismatch", "uint64/accepts-nonhex", fmt.Sprintf("Uint64 %q: no error, got %d", tok, u), c17Case{Kind: "token", Token: tok})
+					c.Violation("C17", "mismatch", "uint64/accepts-nonhex", fmt.Sprintf("Uint64 %q: no error, got %d", tok, u), c17TokCase(tok))
 				}
 				if berr == nil {
-					c.Violation("C17", "mismatch", "byte/accepts-nonhex", fmt.Sprintf("Byte %q: no error", tok), c17Case{Kind: "token", Token: tok})
+					c.Violation("C17", "mismatch", "byte/accepts-nonhex", fmt.Sprintf("Byte %q: no error", tok), c17TokCase(tok))
 				}
 				if bserr == nil {
-					c.Violation("C17", "mismatch", "bytes/accepts-nonhex", fmt.Sprintf("Bytes %q: no error, got %x", tok, []byte(bs)), c17Case{Kind: "token", Token: tok})
+					c.Violation("C17", "mismatch", "bytes/accepts-nonhex", fmt.Sprintf("Bytes %q: no error, got %x", tok, []byte(bs)), c17TokCase(tok))
 				}
 			case !allhex:
 				if bserr == nil {
-					c.Violation("C17", "mismatch", "bytes/accepts-nonhex", fmt.Sprintf("Bytes %q: no error", tok), c17Case{Kind: "token", Token: tok})
+					c.Violation("C17", "mismatch", "bytes/accepts-nonhex", fmt.Sprintf("Bytes %q: no error", tok), c17TokCase(tok))
 				}
 			case allhex:
 				if len(digits) >= 1 && len(digits) <= 16 {
 					want, _ := strconv.ParseUint(digits, 16, 64)
 					if uerr != nil || uint64(u) != want {
-						c.Violation("C17", "mismatch", "uint64/value", fmt.Sprintf("Uint64 %q: got %d err=%v want %d", tok, u, uerr, want), c17Case{Kind: "token", Token: tok})
+						c.Violation("C17", "mismatch", "uint64/value", fmt.Sprintf("Uint64 %q: got %d err=%v want %d", tok, u, uerr, want), c17TokCase(tok))
 					}
 					if want <= 0xff && (berr != nil || uint64(b) != want) {
-						c.Violation("C17", "mismatch", "byte/value", fmt.Sprintf("Byte %q: got %d err=%v want %d", tok, b, berr, want), c17Case{Kind: "token", Token: tok})
+						c.Violation("C17", "mismatch", "byte/value", fmt.Sprintf("Byte %q: got %d err=%v want %d", tok, b, berr, want), c17TokCase(tok))
 					}
 				}
 				if len(digits)%2 == 0 {
 					want, _ := hex.DecodeString(digits)
 					if bserr != nil || !bytes.Equal(bs, want) {
-						c.Violation("C17", "mismatch", "bytes/value", fmt.Sprintf("Bytes %q: got %x err=%v want %x", tok, []byte(bs), bserr, want), c17Case{Kind: "token", Token: tok})
+						c.Violation("C17", "mismatch", "bytes/value", fmt.Sprintf("Bytes %q: got %x err=%v want %x", tok, []byte(bs), bserr, want), c17TokCase(tok))
 					}
 				} else if bserr == nil {
-					c.Violation("C17", "mismatch", "bytes/accepts-odd", fmt.Sprintf("Bytes %q: odd digit count accepted, got %x", tok, []byte(bs)), c17Case{Kind: "token", Token: tok})
+					c.Violation("C17", "mismatch", "bytes/accepts-odd", fmt.Sprintf("Bytes %q: odd digit count accepted, got %x", tok, []byte(bs)), c17TokCase(tok))
 				}
 			}
 		}
@@ -135,7 +154,7 @@ func c17Token(c *fw.Ctx, tok string) {
 	func() {
 		defer func() {
 			if r := recover(); r != nil {
-				c.Violation("C17", "panic", "unmarshal/panic-via-encoding-json", fmt.Sprintf("token %q: panic %v", tok, r), c17Case{Kind: "token", Token: tok})
+				c.Violation("C17", "panic", "unmarshal/panic-via-encoding-json", fmt.Sprintf("token %q: panic %v", tok, r), c17TokCase(tok))
 			}
 		}()
 		var h holder
@@ -144,7 +163,7 @@ func c17Token(c *fw.Ctx, tok string) {
 	func() {
 		defer func() {
 			if r := recover(); r != nil {
-				c.Violation("C17", "panic", "unmarshal/panic-via-goccy", fmt.Sprintf("token %q: panic %v", tok, r), c17Case{Kind: "token", Token: tok})
+				c.Violation("C17", "panic", "unmarshal/panic-via-goccy", fmt.Sprintf("token %q: panic %v", tok, r), c17TokCase(tok))
 			}
 		}()
 		var h holder
@@ -174,16 +193,16 @@ func c17Quantity(c *fw.Ctx, n uint64) {
 		func() {
 			defer func() {
 				if r := recover(); r != nil {
-					c.Violation("C17", "panic", "uint64/panic", fmt.Sprintf("%q: %v", tok, r), c17Case{Kind: "token", Token: tok})
+					c.Violation("C17", "panic", "uint64/panic", fmt.Sprintf("%q: %v", tok, r), c17TokCase(tok))
 				}
 			}()
 			var u eth.Uint64
 			if err := u.UnmarshalJSON([]byte(tok)); err != nil || uint64(u) != n {
-				c.Violation("C17", "mismatch", "uint64/value", fmt.Sprintf("Uint64 %q: got %d err=%v want %d", tok, u, err, n), c17Case{Kind: "token", Token: tok})
+				c.Violation("C17", "mismatch", "uint64/value", fmt.Sprintf("Uint64 %q: got %d err=%v want %d", tok, u, err, n), c17TokCase(tok))
 			}
 			var h struct{ A eth.Uint64 }
 			if err := gojson.Unmarshal([]byte(`{"A":`+tok+`}`), &h); err != nil || uint64(h.A) != n {
-				c.Violation("C17", "mismatch", "uint64/value-via-goccy", fmt.Sprintf("Uint64 %q: got %d err=%v want %d", tok, h.A, err, n), c17Case{Kind: "token", Token: tok})
+				c.Violation("C17", "mismatch", "uint64/value-via-goccy", fmt.Sprintf("Uint64 %q: got %d err=%v want %d", tok, h.A, err, n), c17TokCase(tok))
 			}
 		}()
 		c.Eval(true)
@@ -275,7 +294,7 @@ func c17BytesLen(c *fw.Ctx, l int) {
 			bs = append(bs, bytes.Repeat([]byte{0x5a}, l+3)...)
 			err := bs.UnmarshalJSON([]byte(tok))
 			if err != nil || !bytes.Equal(bs, raw) {
-				c.Violation("C17", "mismatch", "bytes/value", fmt.Sprintf("len %d pattern %d upper=%v: err=%v got %d bytes", l, pi, up, err, len(bs)), c17Case{Kind: "token", Token: tok})
+				c.Violation("C17", "mismatch", "bytes/value", fmt.Sprintf("len %d pattern %d upper=%v: err=%v got %d bytes", l, pi, up, err, len(bs)), c17TokCase(tok))
 			}
 			c.Eval(true)
 			if l > 0 {
@@ -404,6 +423,213 @@ func c17HelperQuantity(c *fw.Ctx, n uint64) {
 	}
 }
 
+// c17Strict judges one string token "0x<digits>" as the value of a JSON member, decoded by encoding/json and by
+// goccy/go-json into each of the three types separately (one document per type, so that one rejection cannot
+// hide another). The reference decides: all digits hex (isHex, strconv, encoding/hex) => the value; any other
+// byte => the decoder must return an error, whatever the reason (malformed document or rejected by the codec).
+// Tokens with a quote or a backslash among the digits are left to c17Token (escape sequences are not enumerated).
+func c17Strict(c *fw.Ctx, tok string) {
+	if len(tok) < 4 || tok[0] != '"' || tok[len(tok)-1] != '"' || tok[1] != '0' || tok[2] != 'x' {
+		return
+	}
+	digits := tok[3 : len(tok)-1]
+	if strings.ContainsAny(digits, "\"\\") {
+		return
+	}
+	allhex := true
+	for i := 0; i < len(digits); i++ {
+		if !isHex(digits[i]) {
+			allhex = false
+		}
+	}
+	cas := c17TokCase(tok)
+	doc := []byte(`{"A":` + tok + `}`)
+	type dec struct {
+		name string
+		fn   func([]byte, any) error
+	}
+	for _, d := range []dec{{"encoding-json", stdjson.Unmarshal}, {"goccy", gojson.Unmarshal}} {
+		func() {
+			defer func() {
+				if r := recover(); r != nil {
+					c.Violation("C17", "panic", "unmarshal/panic-via-"+d.name, fmt.Sprintf("token %q: panic %v", tok, r), cas)
+				}
+			}()
+			var hu struct{ A eth.Uint64 }
+			var hb struct{ A eth.Byte }
+			var hs struct{ A eth.Bytes }
+			uerr := d.fn(doc, &hu)
+			berr := d.fn(doc, &hb)
+			serr := d.fn(doc, &hs)
+			if len(digits) >= 1 && len(digits) <= 16 {
+				if allhex {
+					want, _ := strconv.ParseUint(digits, 16, 64)
+					if uerr != nil || uint64(hu.A) != want {
+						c.Violation("C17", "mismatch", "uint64/value-via-"+d.name, fmt.Sprintf("Uint64 %q: got %d err=%v want %d", tok, hu.A, uerr, want), cas)
+					}
+					if want <= 0xff && (berr != nil || uint64(hb.A) != want) {
+						c.Violation("C17", "mismatch", "byte/value-via-"+d.name, fmt.Sprintf("Byte %q: got %d err=%v want %d", tok, hb.A, berr, want), cas)
+					}
+				} else {
+					if uerr == nil {
+						c.Violation("C17", "mismatch", "uint64/accepts-nonhex-via-"+d.name, fmt.Sprintf("Uint64 %q: no error, got %#x", tok, uint64(hu.A)), cas)
+					}
+					if berr == nil {
+						c.Violation("C17", "mismatch", "byte/accepts-nonhex-via-"+d.name, fmt.Sprintf("Byte %q: no error, got %#x", tok, uint64(hb.A)), cas)
+					}
+				}
+			}
+			switch {
+			case !allhex:
+				if serr == nil {
+					c.Violation("C17", "mismatch", "bytes/accepts-nonhex-via-"+d.name, fmt.Sprintf("Bytes %q: no error, got %x", tok, []byte(hs.A)), cas)
+				}
+			case len(digits)%2 == 1:
+				if serr == nil {
+					c.Violation("C17", "mismatch", "bytes/accepts-odd-via-"+d.name, fmt.Sprintf("Bytes %q: odd digit count accepted, got %x", tok, []byte(hs.A)), cas)
+				}
+			default:
+				want, _ := hex.DecodeString(digits)
+				if serr != nil || !bytes.Equal(hs.A, want) {
+					c.Violation("C17", "mismatch", "bytes/value-via-"+d.name, fmt.Sprintf("Bytes %q: got %x err=%v want %x", tok, []byte(hs.A), serr, want), cas)
+				}
+			}
+		}()
+	}
+}
+
+// c17Wide is one case of the full-byte-range families: the token "0x<digits>" with ARBITRARY bytes as digits,
+// judged on the raw UnmarshalJSON calls and through both JSON decoders per type (c17Token, which includes
+// c17Strict). Tokens that domain (1) already enumerates (short, all bytes in c17Alphabet) are left out.
+func c17Wide(c *fw.Ctx, digits []byte, baseMaxLen int) {
+	tok := `"0x` + string(digits) + `"`
+	if len(tok) <= baseMaxLen {
+		inBase := true
+		for _, b := range digits {
+			if strings.IndexByte(c17Alphabet, b) < 0 {
+				inBase = false
+			}
+		}
+		if inBase {
+			return
+		}
+	}
+	c17Token(c, tok)
+}
+
+// c17HelperWide judges eth.DecodeHex / eth.DecodeUint64 on digit strings of ARBITRARY bytes. The helpers have no
+// error result: DecodeHex can only reject by returning fewer bytes than the spelling has, DecodeUint64 only by
+// panicking. All-hex digits must give the reference value; anything else must not be accepted as a full value.
+func c17HelperWide(c *fw.Ctx, digits []byte) {
+	allhex := true
+	for _, b := range digits {
+		if !isHex(b) {
+			allhex = false
+		}
+	}
+	if allhex && len(digits) <= 4 {
+		return // valid spellings of byte strings of length 0..2 are all in (6)
+	}
+	d := string(digits)
+	cas := c17Case{Kind: "helperwide", Hex: hex.EncodeToString(digits)}
+	padded := d
+	if len(padded)%2 == 1 {
+		padded = "0" + padded
+	}
+	spell := []string{"0x" + d, "0X" + d}
+	if !(len(d) >= 2 && d[0] == '0' && (d[1] == 'x' || d[1] == 'X')) {
+		spell = append(spell, d) // an unprefixed spelling that itself begins with 0x is ambiguous
+	}
+	for _, sp := range spell {
+		func() {
+			defer func() {
+				if r := recover(); r != nil {
+					c.Violation("C17", "panic", "hexhelper/panic", fmt.Sprintf("DecodeHex(%q): panic %v", sp, r), cas)
+				}
+			}()
+			got := eth.DecodeHex(sp)
+			if allhex {
+				if want, _ := hex.DecodeString(padded); !bytes.Equal(got, want) {
+					c.Violation("C17", "mismatch", "hexhelper/decode", fmt.Sprintf("DecodeHex(%q) = %x want %x", sp, got, want), cas)
+				}
+			} else if len(got) >= len(padded)/2 {
+				c.Violation("C17", "mismatch", "hexhelper/accepts-nonhex", fmt.Sprintf("DecodeHex(%q) = %x: a full-length value for a spelling with a non-hex byte", sp, got), cas)
+			}
+		}()
+		if len(d) <= 16 {
+			func() {
+				var got uint64
+				returned := false
+				defer func() {
+					r := recover()
+					if allhex {
+						want, _ := strconv.ParseUint(d, 16, 64)
+						if r != nil || got != want {
+							c.Violation("C17", "mismatch", "hexhelper/decode-uint64", fmt.Sprintf("DecodeUint64(%q) = %d panic=%v want %d", sp, got, r, want), cas)
+						}
+					} else if returned {
+						c.Violation("C17", "mismatch", "hexhelper/uint64-accepts-nonhex", fmt.Sprintf("DecodeUint64(%q) = %#x: a value for a spelling with a non-hex byte", sp, got), cas)
+					}
+				}()
+				got = eth.DecodeUint64(sp)
+				returned = true
+			}()
+		}
+		c.Eval(true)
+	}
+}
+
+// c17OnePos enumerates, for one digit count l, every position x every byte value 0..255 x the fill digits,
+// each distinct digit string once (a byte equal to the fill gives the same string at every position).
+func c17OnePos(l int, fills []byte, f func(digits []byte)) {
+	for _, fill := range fills {
+		for pos := 0; pos < l; pos++ {
+			for v := 0; v < 256; v++ {
+				if byte(v) == fill && pos > 0 {
+					continue
+				}
+				d := bytes.Repeat([]byte{fill}, l)
+				d[pos] = byte(v)
+				f(d)
+			}
+		}
+	}
+}
+
+// c17Runes calls f with the UTF-8 encoding of every code point of the tier's non-ASCII domain whose lead byte
+// is lead: all of U+0080..U+FFFF (no surrogates); above that, quick keeps the code points whose last two
+// continuation bytes are equal (every lead byte, every second byte, every continuation value), thorough all.
+func c17Runes(lead byte, thorough bool, f func(enc []byte)) {
+	var lo, hi rune
+	switch {
+	case lead >= 0xc2 && lead <= 0xdf:
+		lo = rune(lead&0x1f) << 6
+		hi = lo | 0x3f
+	case lead >= 0xe0 && lead <= 0xef:
+		lo = rune(lead&0x0f) << 12
+		hi = lo | 0xfff
+	case lead >= 0xf0 && lead <= 0xf4:
+		lo = rune(lead&0x07) << 18
+		hi = lo | 0x3ffff
+	default:
+		return
+	}
+	for r := lo; r <= hi && r <= utf8.MaxRune; r++ {
+		if r < 0x80 || r >= 0xd800 && r <= 0xdfff {
+			continue
+		}
+		if r >= 0x10000 && !thorough && (r>>6)&0x3f != r&0x3f {
+			continue
+		}
+		var buf [4]byte
+		n := utf8.EncodeRune(buf[:], r)
+		if buf[0] != lead {
+			continue // overlong range of this lead byte (e0 80.., f0 80..)
+		}
+		f(buf[:n])
+	}
+}
+
 func c17Values(thorough bool) []uint64 {
 	seen := map[uint64]bool{}
 	var vals []uint64
@@ -470,6 +696,55 @@ func c17Run(c *fw.Ctx) {
 			}
 			rec([]byte{A[i], A[j]})
 		}
+	}
+	// (7) the full byte range. (7a) every digit string of length 1 and 2 over ALL 256 byte values; (7b) digit
+	// counts 3..18 (thorough: ..34): every position x every byte value x 3 fill digits. Each as a raw token for
+	// the three UnmarshalJSON methods and as a JSON member value through encoding/json and goccy/go-json.
+	wideMax := 18
+	if c.Thorough() {
+		wideMax = 34
+	}
+	c.Bound("wide_max_digits", wideMax)
+	for a := 0; a < 256 && !c.Expired(); a++ {
+		if !c.Mine() {
+			continue
+		}
+		c17Wide(c, []byte{byte(a)}, maxLen)
+		for b := 0; b < 256; b++ {
+			c17Wide(c, []byte{byte(a), byte(b)}, maxLen)
+		}
+	}
+	for l := 3; l <= wideMax; l++ {
+		if !c.Mine() {
+			continue
+		}
+		c17OnePos(l, []byte{'1', 'f', 'A'}, func(d []byte) { c17Wide(c, d, maxLen) })
+	}
+	// (7c) WELL-FORMED documents with non-ASCII characters: every code point of the tier's domain (see c17Runes),
+	// UTF-8 encoded, alone, after a digit and before a digit
+	for lead := 0xc2; lead <= 0xf4 && !c.Expired(); lead++ {
+		if !c.Mine() {
+			continue
+		}
+		c17Runes(byte(lead), c.Thorough(), func(enc []byte) {
+			c.Count("non_ascii_code_points", 1)
+			if len(enc) > 2 { // every two-byte digit string is in (7a) already
+				c17Wide(c, enc, maxLen)
+			}
+			c17Wide(c, append([]byte{'a'}, enc...), maxLen)
+			c17Wide(c, append(append([]byte{}, enc...), '7'), maxLen)
+		})
+	}
+	// (7d) the string helpers on the same position x byte value family, digit counts 1..16 (thorough: ..40)
+	helperMax := 16
+	if c.Thorough() {
+		helperMax = 40
+	}
+	for l := 1; l <= helperMax; l++ {
+		if !c.Mine() {
+			continue
+		}
+		c17OnePos(l, []byte{'1', 'f'}, func(d []byte) { c17HelperWide(c, d) })
 	}
 	// (2) quantities
 	vals := c17Values(c.Thorough())
@@ -547,7 +822,14 @@ func c17Replay(c *fw.Ctx, raw stdjson.RawMessage) {
 		return
 	}
 	switch k.Kind {
+	case "helperwide":
+		d, _ := hex.DecodeString(k.Hex)
+		c17HelperWide(c, d)
 	case "token":
+		if k.Hex != "" {
+			b, _ := hex.DecodeString(k.Hex)
+			k.Token = string(b)
+		}
 		c17Token(c, k.Token)
 		// structured paths use the same keys; run them too where applicable
 		if strings.HasPrefix(k.Token, `"0x`) {
